@@ -91,6 +91,10 @@ def run(ctx, rep, model=True):
             # characters that mean something to glob / fnmatch / the shell in the plotfile path
             spec["path_sub"] = [["sweep[2]", "run*x", "a?b"][i % 3], "plt_phi[0.8]_00007"]
             rep.count("glob-characters-in-path")
+        if i % 3 == 0 and len(spec["fields"]) >= 2:
+            # field names that differ only in the case of a letter (PeleLMeX: `Temp` and `temp`, `rhoh` and `rhoH`)
+            spec["fields"][0], spec["fields"][-1] = [("Temp", "temp"), ("rhoh", "rhoH"), ("y(oh)", "Y(OH)")][(i // 3) % 3]
+            rep.count("names-differing-by-case")
         path = place(ctx, spec)
         truth = plotgen.materialize(spec, path)
         names = list(dedup_names(spec["fields"]))
